@@ -119,6 +119,10 @@ func c18ThreadGroup(e *sim.Env) {
 					pr.add("C18.threadgroup", "add-after-stop", fmt.Sprintf("Add succeeded although the group was already stopped (Done closed before the call: %v, a Stop had returned: %v)", closedBefore, retBefore))
 				}
 				mu.Lock()
+				// an admitted thread holds every Stop back until it calls done
+				if stopReturned > 0 {
+					pr.add("C18.threadgroup", "admitted-after-stop-returned", "Add succeeded, and by the time it returned a Stop call had already returned: that Stop did not wait for this thread")
+				}
 				active++
 				mu.Unlock()
 				time.Sleep(o.hold)
@@ -139,6 +143,9 @@ func c18ThreadGroup(e *sim.Env) {
 					pr.add("C18.threadgroup", "add-after-stop", "AddContext succeeded although the group's Done channel was already closed")
 				}
 				mu.Lock()
+				if stopReturned > 0 {
+					pr.add("C18.threadgroup", "admitted-after-stop-returned", "AddContext succeeded, and by the time it returned a Stop call had already returned: that Stop did not wait for this thread")
+				}
 				active++
 				mu.Unlock()
 				// a well-behaved thread: works until its context ends
